@@ -272,6 +272,15 @@ def check_repr(c):
     wa, wb = sa.axes(Axes.WORLD).tensor(), sb.axes(Axes.WORLD).tensor()
     if (wa - wb).abs().max() > _tol(wa):
         return (f"C10:sample:repr:{a.value}-vs-{b.value}", f"resampled world vectors differ by {(wa - wb).abs().max():.3e}")
+    # one shared target `Grid` for the whole batch is the same as that grid listed once per field (every field is
+    # re-expressed from ITS OWN source grid; seeded change C10-10)
+    for nm, f_, s_ in ((a.value, fa, sa), (b.value, fa.axes(b), sb)):
+        one = f_.sample(tgt)
+        if not isinstance(one, FlowFields) or len(one.grids()) != n or one.axes() is not s_.axes():
+            return ("C10:sample:single-grid:batch", "sample(Grid) does not return one field per input field in the same axes")
+        if (one.tensor() - s_.tensor()).abs().max() > _tol(s_.tensor()):
+            return (f"C10:sample:single-grid:{nm}",
+                    f"sample(Grid) differs from sample([Grid] * N) by {(one.tensor() - s_.tensor()).abs().max():.3e}")
     # and resampling a world-affine field returns the same world-affine field inside the source domain (values kept)
     return None
 
